@@ -259,6 +259,7 @@ type env struct {
 	w3      *wrapped // built from handles WITHOUT annotations (public one straight from Handle.Public()): must decide alike and log nothing
 	nontriv bool
 	build   string
+	cur     *kspec // JWT families: the key whose single-key primitive made the token being probed
 }
 
 var annotations = map[string]string{"verif": "c05"}
@@ -693,7 +694,16 @@ func (e *env) probe(y []byte, in probeIn, src, mut string) {
 			}
 		}
 	}
+	byConstr, enabledByConstr := (f.name == "jwtmac" || f.name == "jwtsig") && mut == "genuine" && e.cur != nil, false
+	if byConstr {
+		enabledByConstr = e.jwtRowByConstruction(y, string(bits), src)
+	}
 	r1 := e.call(f.accCtx, "accept", func() ([]byte, error) { return e.w1.accept(y, in) })
+	if byConstr && r1.ok != enabledByConstr {
+		// independent of the measured row: which members have the producing key's material AND exactly its kid
+		vio(o, "%s keyset primitive answers accept=%v on a genuine token of a %s key {%s}, but by construction (same material AND kid byte-equal) some ENABLED member accepts = %v; keyset %s; token %q",
+			f.name, r1.ok, src, kidDesc(e.cur), enabledByConstr, e.describeJWTMembers(), y)
+	}
 	e.spy.reset()
 	r2 := e.call(f.accCtx, "accept(spied)", func() ([]byte, error) { return e.w2.accept(y, in) })
 	wi := e.workerIdx()
@@ -852,7 +862,9 @@ func (e *env) probeCandidate(c *kspec, src string, nmut int) {
 	if err != nil {
 		panic(fmt.Sprintf("single-key %s (%s) cannot produce: %v", c.label, e.f.name, err))
 	}
+	e.cur = c
 	e.probe(y, in, src, "genuine")
+	e.cur = nil
 	if e.f.name == "aead" && len(c.prefix) == 0 && rng.Chance(60) {
 		// a RAW AEAD ciphertext starts with the random nonce: make that nonce start with a member's
 		// 5 prefix bytes, so that the ciphertext of the RAW key sits in that member's prefix bucket
@@ -954,7 +966,9 @@ func (e *env) producerCheck() {
 		}
 	}
 	// the keyset primitive must accept its own output (and log the primary or an equal key)
+	e.cur = p
 	e.probe(r1.out, in, "wrapped", "genuine")
+	e.cur = nil
 }
 
 // payloadOf: what a successful acceptance returns for in.
@@ -1121,6 +1135,15 @@ func runCase(o *hlib.Out, rng *hlib.Rng, f *family, caseNo int) {
 		}
 	}
 
+	// JWT: a foreign key with a member's MATERIAL whose kid is a near miss of the member's kid (letter case,
+	// trailing white space / NUL, base64 padding, prefix); drawn from a stream of its own
+	if f.name == "jwtmac" || f.name == "jwtsig" {
+		if s := e.kidVariantForeign(hlib.NewRng(*hlib.FlagSeed, fmt.Sprintf("c05/kidvariant/%d", caseNo)), ids); s != nil {
+			s.role = "foreign-kid-variant"
+			e.foreign = append(e.foreign, s)
+		}
+	}
+
 	addErr(km.SetAnnotations(annotations))
 	priv := must(km.Handle())
 	if rng.Chance(30) {
@@ -1227,10 +1250,16 @@ func main() {
 	for _, f := range fams {
 		rng := hlib.NewRng(*hlib.FlagSeed, "c05/"+f.name)
 		n := hlib.N(quick[f.name], 20*quick[f.name])
+		if *hlib.FlagMode == "kidtwins" { // by hand: only the last section
+			n = 0
+		}
 		for c := 0; c < n; c++ {
 			caseNo++
 			o.Case()
 			runCase(o, rng, f, caseNo)
 		}
 	}
+	// twin keys (same material) whose kids differ only in letter case / Unicode folding / white space / …,
+	// judged by an acceptance row computed independently of the jwt package (kidtwins.go)
+	runKidTwins(o, fams, &caseNo)
 }
